@@ -139,6 +139,22 @@ Wide1 ==
                                                 Wd(<<"x">>, "exec"), Wd(<<"y">>, "query"), Wd(NameFoo, "sudo"),
                                                 Wd(NameMigrate, "migrate") >>] >>]
 
+(* generic programs: the contract is generic in T (instantiated with a concrete type at the entry points), the interface
+   has an associated type the contract forwards T to; "GenT" is an argument of that type *)
+GSig == << [n |-> "g", t |-> "GenT"] >>
+GSig2 == << [n |-> "g", t |-> "GenT"], [n |-> "n", t |-> "u32"] >>
+Gm(name, kind, sig) == [Sh(name, kind, "ok") EXCEPT !.args = sig]
+Generic1 ==      \* the interface and the contract both have generic exec and query messages
+    [id |-> "G1", family |-> "generic", overrides |-> {},
+     parts |-> << [id |-> "i1", methods |-> << Gm(NameFoo, "exec", GSig), Gm(NameBar, "query", GSig), Sh(<<"z">>, "sudo", "err") >>],
+                  [id |-> "own", methods |-> << Gm(NameInstantiate, "instantiate", GSig), Gm(<<"x">>, "exec", GSig2),
+                                                Gm(<<"y">>, "query", GSig), Gm(NameFoo, "sudo", GSig), Gm(NameMigrate, "migrate", GSig) >>] >>]
+Generic2 ==      \* only the contract is generic, and only in its exec messages
+    [id |-> "G2", family |-> "generic", overrides |-> {},
+     parts |-> << [id |-> "i1", methods |-> << Sh(NameFoo, "exec", "ok"), Sh(NameBar, "query", "ok") >>],
+                  [id |-> "own", methods |-> << Sh(NameInstantiate, "instantiate", "ok"), Gm(<<"x">>, "exec", GSig2),
+                                                Sh(<<"y">>, "query", "err"), Gm(<<"z">>, "sudo", GSig) >>] >>]
+
 (* programs that override entry points (C06, C04): one handler of every kind, some kinds served by the user's own functions *)
 OvProg(id, ov) ==
     [id |-> id, family |-> "override", overrides |-> ov,
@@ -185,12 +201,12 @@ PermTwin(p) ==
 RawSeq ==      \* all programs of this instance, as a sequence
        [gi \in 1..Len(Groups) |-> CorpusProg(gi)]
     \o [i \in 1..Len(SmallFs) |-> SmallProgOf(SmallFs[i], "m" \o ToString(i))]
-    \o <<Shared1, Shared2, Wide1, PermTwin(Shared1), PermTwin(CorpusProg(1))>> \o OverrideProgs \o CollideProgs
+    \o <<Shared1, Shared2, Wide1, Generic1, Generic2, PermTwin(Shared1), PermTwin(CorpusProg(1))>> \o OverrideProgs \o CollideProgs
 
 (* the table of elaborated programs: the static semantics applied once per program *)
 ElabSeq == TLCEval([i \in 1..Len(RawSeq) |-> Elab(RawSeq[i])])
 ProgTable == ElabSeq          \* program "ids" of the model are indices into this sequence
-CompiledIds == {i \in 1..Len(RawSeq) : RawSeq[i].family \in {"corpus", "shared", "perm", "override", "collide"}}
+CompiledIds == {i \in 1..Len(RawSeq) : RawSeq[i].family \in {"corpus", "shared", "perm", "override", "collide", "generic"}}
 
 (* ------------------------------------------------------------ documents *)
 KeyUniverse(q) == EWireUniverse(q) \cup EArgUniverse(q) \cup {"zz_unknown"}
